@@ -207,7 +207,10 @@ class PolicyExtraction(Unit):
         FIRST = z3.Function("first_env", Leaf, Leaf)
         jax_tm = ex.lib.ns["jax"].entries["tree_util"].entries["tree_map"]
         params = z3.Const("trained_params", Leaf)
-        norm_obs, act_sc = z3.Const("norm_obs_state", Leaf), z3.Const("act_scaling_state", Leaf)
+        act_sc = z3.Const("act_scaling_state", Leaf)
+        # the running observation statistics of training (a real NormalizeVec, so that a copy with altered statistics is seen)
+        norm_obs = Rec("NormalizeVec", dict(mean=z3.Real("norm.mean"), var=z3.Real("norm.var"), count=z3.Real("norm.count"), return_val=None, clip=z3.Real("norm.clip")), module="rex/rl.py", frozen=True)
+        ctx.require(norm_obs.f["var"] >= 0)
         ex.opts["leaf_getitem"] = lambda ex_, o, i: FIRST(o)
         env_state = Rec("GraphState", dict(aux={"norm_obs": norm_obs, "act_scaling": act_sc, "norm_reward": z3.Const("rwd", Leaf)}), module=None, frozen=True)
         rs = Rec("RunnerState", dict(train_state=Rec("TrainState", dict(params={"params": params}), module=None, frozen=True), env_state=env_state), module=PPO, frozen=True)
@@ -218,7 +221,8 @@ class PolicyExtraction(Unit):
         ctx.ensure("returns a Policy", z3.BoolVal(ok))
         if ok:
             ctx.ensure("C20 the exported policy carries the trained parameters, the training-time observation normalisation state, the first environment's action scaling, the training activation and std flag",
-                       z3.And(toz(aw.same(pol.f["model"], params)), toz(aw.same(pol.f["obs_scaling"], norm_obs)), toz(aw.same(pol.f["act_scaling"], FIRST(act_sc))),
+                       z3.And(toz(aw.same(pol.f["model"], params)), z3.BoolVal(isinstance(pol.f["obs_scaling"], Rec) and pol.f["obs_scaling"].cls == "NormalizeVec"),
+                              *([toz(pol.f["obs_scaling"].f[k]) == norm_obs.f[k] for k in ("mean", "var", "count", "clip")] if isinstance(pol.f["obs_scaling"], Rec) else []), toz(aw.same(pol.f["act_scaling"], FIRST(act_sc))),
                               z3.BoolVal(pol.f["hidden_activation"] == "gelu" and pol.f["output_activation"] == "gaussian" and pol.f["state_independent_std"] is True)))
 
 
